@@ -407,8 +407,12 @@ fn build_registry() -> Registry {
     for (n, b) in mtrls {
         seeds.push(SeedFile::new("mtrl", n, b).magic(4));
     }
-    for (n, b) in shpks {
-        seeds.push(SeedFile::new("shpk", n, b).magic(4));
+    let _ = shpks;
+    for (n, b, selectors, marks) in crate::props::c14::seed_shpks(&ctx, 3 * k) {
+        // second argument: the selectors a caller of the intact package would look up (nodes and aliases)
+        let mut s = SeedFile::new("shpk", n, b.clone()).magic(4).marks(marks);
+        s.args = vec![b, selectors.iter().flat_map(|x| x.to_le_bytes()).collect()];
+        seeds.push(s);
     }
     for (n, b) in crate::props::c13::seed_files(&ctx, 5 * k) {
         seeds.push(SeedFile::new("tex", n, b).marks(vec![4, 8, 10, 12, 14, 80]));
@@ -507,6 +511,27 @@ fn seeds_as_they_are(_: &Ctx) -> Vec<RCase> {
 
 fn mutants(_: &Ctx) -> BoxedStrategy<RCase> {
     mutant_strategy(registry())
+}
+
+/// Texture headers generated from the grammar rather than by corrupting a valid file: every format (and unknown
+/// ones), each dimension independently from a set of boundary values or free, any attribute, and a payload that is
+/// absent, short, or as long as a small image needs. Sizes are products of three header fields; only a header in
+/// which several of them are off at once reaches the arithmetic behind the "is the data there" checks.
+fn tex_headers(_: &Ctx) -> BoxedStrategy<RCase> {
+    let dim = || prop_oneof![4 => prop::sample::select(vec![0u16, 1, 2, 3, 4, 5, 7, 8, 16, 255, 256, 1024, 2048, 4096, 32767, 32768, 65535]), 1 => any::<u16>()];
+    let format = prop_oneof![6 => prop::sample::select(vec![0x1440u32, 0x1450, 0x3420, 0x3431, 0x6230]), 1 => any::<u32>()];
+    let attribute = prop_oneof![2 => Just(0x0080_0000u32), 2 => Just(0x0100_0000u32), 1 => any::<u32>()];
+    let payload = prop_oneof![2 => Just(0usize), 2 => 1usize..64, 2 => 64usize..4096, 1 => 4096usize..70000];
+    (format, dim(), dim(), dim(), attribute, 0u16..16, payload, any::<u64>())
+        .prop_map(|(format, width, height, depth, attribute, mips, payload, seed)| {
+            let c = crate::props::c13::Case { format, width, height, depth, attribute, mips, seed, trailing: 0, tie_bias: 0 };
+            let mut file = crate::props::c13::header(&c);
+            file.extend_from_slice(&crate::build::mdl::random_bytes(seed, payload));
+            let mut r = RCase::explicit("tex", "tex-header", vec![file]);
+            r.note = format!("tex-header: format {:#x}, {}x{}x{}, attribute {:#x}, {} payload bytes", format, width, height, depth, attribute, payload);
+            r
+        })
+        .boxed()
 }
 
 fn blobs(ctx: &Ctx) -> BoxedStrategy<RCase> {
@@ -782,7 +807,7 @@ fn post(_: &Ctx) {
 pub fn property() -> Property {
     Property {
         id: "C18",
-        rule: "cases = (entry point, valid seed asset or archive, corruption) executed in an isolated worker process. Entry points: from_existing of model, material, shader package (+find_node for every listed and some absent selectors), texture, EXH, EXD (+read_row for every indexed id, page ids and absent ids; header and page corrupted separately), skeleton, deformer (+get_deform_matrices for all ordered pairs of body ids), scaling table, terrain, staining template, dictionary, layer group (empty, fixture, and one with instance objects), effect, uld/sgb/scd/hwc/iwc/tmb/skp/schd/phyb/pap headers, SqPack database; SqPackIndex::from_existing+exists/find_entry, SqPackData::read_from_offset at entry and stray offsets, GameData::from_existing/exists/find_offset/extract on a synthetic installation. Seeds: output of the C05/C06/C13/C14/C16 generators for fixed internal seeds, the repository's sample model and layer group, hand-built files for the remaining formats, an installation with standard/texture/model entries, index and index2, and an expansion. Corruptions: every truncation point; every offset x width {1,2,4,8} x value {0, 1, 0x7F.., 0x80.., 0xFF.., +1, -1} x byte order; random mutation compositions; random blobs behind intact magic; cyclic links (every deformer link / item link to every node, dictionary inner nodes and entry fields); archive fault sequences before opening and between open and read (truncation at every structure boundary +-1, every header field corrupted, files removed / replaced by directories / emptied, stray and oddly named files and directories incl. non-UTF-8 names, missing version files, expansion removed while open); leak probes (damaged deflate streams and wrong declared sizes in standard, texture and model entries, 120 repetitions each, growth measured over the last 90). Oracle: worker outcome must be value or ordinary failure -- no panic, abort, stack overflow, more than 10 s CPU, live heap above max(64 MiB, 256 x input), or per-call heap growth. Non-trivial: input differs from the seed, is non-empty and keeps the seed's magic; distinct by hash of (entry, arguments).",
+        rule: "cases = (entry point, valid seed asset or archive, corruption) executed in an isolated worker process. Entry points: from_existing of model, material, shader package (+find_node for every listed and some absent selectors), texture, EXH, EXD (+read_row for every indexed id, page ids and absent ids; header and page corrupted separately), skeleton, deformer (+get_deform_matrices for all ordered pairs of body ids), scaling table, terrain, staining template, dictionary, layer group (empty, fixture, and one with instance objects), effect, uld/sgb/scd/hwc/iwc/tmb/skp/schd/phyb/pap headers, SqPack database; SqPackIndex::from_existing+exists/find_entry, SqPackData::read_from_offset at entry and stray offsets, GameData::from_existing/exists/find_offset/extract on a synthetic installation. Seeds: output of the C05/C06/C13/C14/C16 generators for fixed internal seeds, the repository's sample model and layer group, hand-built files for the remaining formats, an installation with standard/texture/model entries, index and index2, and an expansion. Corruptions: every truncation point; every offset x width {1,2,4,8} x value {0, 1, 0x7F.., 0x80.., 0xFF.., +1, -1} x byte order; random mutation compositions; random blobs behind intact magic; texture headers generated from the grammar (every format, each dimension from boundary values or free, any attribute, payload absent / short / present); shader packages queried with the selectors of the intact package's nodes and aliases (every package has an alias of its last node); cyclic links (every deformer link / item link to every node, dictionary inner nodes and entry fields); archive fault sequences before opening and between open and read (truncation at every structure boundary +-1, every header field corrupted, files removed / replaced by directories / emptied, stray and oddly named files and directories incl. non-UTF-8 names, missing version files, expansion removed while open); leak probes (damaged deflate streams and wrong declared sizes in standard, texture and model entries, 120 repetitions each, growth measured over the last 90). Oracle: worker outcome must be value or ordinary failure -- no panic, abort, stack overflow, more than 10 s CPU, live heap above max(64 MiB, 256 x input), or per-call heap growth. Non-trivial: input differs from the seed, is non-empty and keeps the seed's magic; distinct by hash of (entry, arguments).",
         assumptions: &["files a case writes are capped at 16 MiB by RLIMIT_FSIZE", "wall-clock time is not judged; the CPU budget is 10 s per case", "stack overflow is observed on the worker's 8 MiB main-thread stack"],
         pre: None,
         parts: vec![
@@ -792,6 +817,7 @@ pub fn property() -> Property {
             Box::new(Part { name: "leak-probes", driver: Driver::Enum(leak_probes), prop, exhaustive: false }),
             Box::new(Part { name: "truncations", driver: Driver::Enum(truncations), prop, exhaustive: true }),
             Box::new(Part { name: "fields", driver: Driver::Enum(fields), prop, exhaustive: true }),
+            Box::new(Part { name: "tex-headers", driver: Driver::Gen(tex_headers, 20_000, 600_000), prop, exhaustive: false }),
             Box::new(Part { name: "archive-random", driver: Driver::Gen(archive_random, 3_000, 150_000), prop, exhaustive: false }),
             Box::new(Part { name: "random-mutants", driver: Driver::Gen(mutants, 60_000, 4_000_000), prop, exhaustive: false }),
             Box::new(Part { name: "random-blobs", driver: Driver::Gen(blobs, 4_000, 200_000), prop, exhaustive: false }),
